@@ -215,11 +215,11 @@ func (c *ConfigFile) EntryForRegistry(registryHostname string) (ConfigEntry, err
 		// existing. See https://github.com/cue-lang/cue/issues/2934.
 	}
 	auth := c.data.Auths[registryHostname]
-	if auth.IdentityToken != "" && auth.Username != "" {
-		return ConfigEntry{}, fmt.Errorf("ambiguous auth credentials")
-	}
 	if len(auth.derivedFrom) > 1 {
 		return ConfigEntry{}, fmt.Errorf("more than one auths entry for %q (%s)", registryHostname, strings.Join(auth.derivedFrom, ", "))
+	}
+	if auth.IdentityToken != "" && auth.Username != "" {
+		return ConfigEntry{}, fmt.Errorf("ambiguous auth credentials")
 	}
 
 	return ConfigEntry{
